@@ -117,7 +117,7 @@ theorem flushHeredocs_keeps (o σ) : Keeps σ (flushHeredocs o σ) := by
     split
     · rename_i c rest hp
       split
-      · have := hdocBodies_same o (h :: hs) (emitComs [c] ({ σ with hdocs := [], pending := [] } : St))
+      · have := hdocBodies_same o (h :: hs) (emitComs [c] ({ σ with hdocs := [], pending := [], mustNewline := false } : St))
         exact ⟨by simp [St.acc, this.emitted, emitComs_emitted, hp],
                by simp [this.lossD, emitComs_lossD], by simp [this.inlineN, emitComs_inlineN]⟩
       · have := hdocBodies_same o (h :: hs) ({ σ with hdocs := [], pending := [] } : St)
